@@ -57,6 +57,7 @@ def shape(sid: str, src: str, spec: str, types: list[str] | None = None, setting
 
 
 E = "errors: list[Error]"
+WRAP = "import functools\n\n\ndef _deco(f):\n    @functools.wraps(f)\n    def wrapper(*args, **kwargs):\n        return f(*args, **kwargs)\n\n    return wrapper\n\n\n"
 SHAPES: list[dict[str, Any]] = [
     shape("v2", fn(f"(node: IntExpr, {E}) -> None"), "valid", ["IntExpr"]),
     shape("v2_noret", fn(f"(node: IntExpr, {E})"), "valid", ["IntExpr"]),
@@ -115,6 +116,10 @@ SHAPES: list[dict[str, Any]] = [
     shape("default_settings_noret", fn(f"(node: IntExpr, {E}, settings: Settings = None)"), "either", ["IntExpr"]),
     shape("posonly", fn(f"(node: IntExpr, errors: list[Error], /) -> None"), "either", ["IntExpr"]),
     shape("future_annotations", fn(f"(node: IntExpr, {E}) -> None"), "either", ["IntExpr"], future=True),
+    # a check wrapped by a functools.wraps decorator (timing, logging, caching wrappers): the loader validates the wrapped
+    # signature, so whoever calls it must count the same parameters
+    shape("wrapped_v2", WRAP + "@_deco\n" + fn(f"(node: IntExpr, {E}) -> None"), "either", ["IntExpr"]),
+    shape("wrapped_v3", WRAP + "@_deco\n" + fn(f"(node: IntExpr, {E}, settings: Settings) -> None"), "either", ["IntExpr"], True),
     shape("falsy", "check = 0\n", "nocheck"),
     shape("absent", "", "nocheck"),
     # in-process only (their bodies cannot run as a check)
